@@ -138,6 +138,15 @@ impl Ep {
         }
     }
     /// can the call be made with a second, different argument list?
+    /// does the entry point take several arguments, of which component `k` (see `Principal::HolderOtherArg`) is one
+    fn has_component(self, k: u8) -> bool {
+        match self {
+            Ep::GasCollectFees => matches!(k, 0 | 1 | 3),
+            Ep::GasRefund => k < 4,
+            Ep::TokOwnerMint | Ep::TokOwnerMintFrom => k < 2,
+            _ => false,
+        }
+    }
     fn has_variant(self) -> bool {
         !matches!(self, Ep::GwMigrate | Ep::GasMigrate | Ep::OpsMigrate | Ep::ItsMigrate | Ep::TokMigrate)
     }
@@ -170,10 +179,25 @@ pub enum Principal {
     Nobody,
     /// the holder authorised the same entry point with other arguments
     HolderOtherCall,
+    /// the holder authorised the same entry point with arguments that differ from the studied call in exactly one
+    /// component: 0 the address named, 1 the amount, 2 the message id, 3 the token (entry points without that
+    /// component are skipped)
+    HolderOtherArg(u8),
 }
 
-const PRINCIPALS: [Principal; 7] =
-    [Principal::Holder, Principal::Former, Principal::OtherRole, Principal::Beneficiary, Principal::Stranger, Principal::Nobody, Principal::HolderOtherCall];
+const PRINCIPALS: [Principal; 11] = [
+    Principal::Holder,
+    Principal::Former,
+    Principal::OtherRole,
+    Principal::Beneficiary,
+    Principal::Stranger,
+    Principal::Nobody,
+    Principal::HolderOtherCall,
+    Principal::HolderOtherArg(0),
+    Principal::HolderOtherArg(1),
+    Principal::HolderOtherArg(2),
+    Principal::HolderOtherArg(3),
+];
 
 #[derive(Clone, Copy, Debug, Serialize, Deserialize, PartialEq, Eq)]
 pub struct Xfer {
@@ -253,6 +277,10 @@ fn prepare(s: &Sys, ep: Ep) {
         Ep::TokMigrate => s.token.upgrade(&empty),
         Ep::GasCollectFees | Ep::GasRefund => {
             s.fund(&s.gas.address, 1000);
+            // (the service also holds a second token, so that a payout of that one is a possible call as well)
+            let o = s.token.owner();
+            s.token.add_minter(&o);
+            s.token.mint(&s.gas.address, &1000);
         }
         Ep::GwRotateBypassOlderSet => {
             // an honest rotation first, so that the initial set is older but still retained (retention 2)
@@ -282,12 +310,16 @@ fn prepare(s: &Sys, ep: Ep) {
     }
 }
 
-/// the studied call; `alt` selects the second argument list
-fn call(s: &Sys, ep: Ep, alt: bool) -> bool {
+/// the studied call; `alt` selects another argument list: 0 the studied one, 1 every argument differs, 2 + k only
+/// component k differs (0 address named, 1 amount, 2 message id, 3 token)
+fn call(s: &Sys, ep: Ep, alt_sel: u8) -> bool {
     let env = &s.env;
-    let who = if alt { &s.pool[EXTRA_B] } else { &s.named };
+    let alt = alt_sel == 1;
+    let who = if alt || alt_sel == 2 { &s.pool[EXTRA_B] } else { &s.named };
     let chain = sstr(env, if alt { "chain-b" } else { "chain-a" });
-    let amount: i128 = if alt { 2 } else { 1 };
+    let amount: i128 = if alt || alt_sel == 3 { 2 } else { 1 };
+    let msg_id = sstr(env, if alt_sel == 4 { "msg-2" } else { "msg-1" });
+    let fee_token = if alt_sel == 5 { s.token.address.clone() } else { s.asset.clone() };
     let hash = if alt { env.deployer().upload_contract_wasm(DUMMY_WASM) } else { BytesN::from_array(env, &empty_wasm_hash()) };
     macro_rules! ok {
         ($e:expr) => {
@@ -314,8 +346,8 @@ fn call(s: &Sys, ep: Ep, alt: bool) -> bool {
         Ep::GasTransferOwnership => ok!(s.gas.try_transfer_ownership(who)),
         Ep::GasUpgrade => ok!(s.gas.try_upgrade(&hash)),
         Ep::GasMigrate => migrate_typed(env, &s.gas.address, "axelar-gas-service", &MigHints::default()).is_ok(),
-        Ep::GasCollectFees => ok!(s.gas.try_collect_fees(who, &Token { address: s.asset.clone(), amount: payout_amount(s, alt) })),
-        Ep::GasRefund => ok!(s.gas.try_refund(&sstr(env, "msg-1"), who, &Token { address: s.asset.clone(), amount: payout_amount(s, alt) })),
+        Ep::GasCollectFees => ok!(s.gas.try_collect_fees(who, &Token { address: fee_token, amount: payout_amount(s, alt || alt_sel == 3) })),
+        Ep::GasRefund => ok!(s.gas.try_refund(&msg_id, who, &Token { address: fee_token, amount: payout_amount(s, alt || alt_sel == 3) })),
         Ep::OpsTransferOwnership => ok!(s.ops.try_transfer_ownership(who)),
         Ep::OpsUpgrade => ok!(s.ops.try_upgrade(&hash)),
         Ep::OpsMigrate => migrate_typed(env, &s.ops.address, "axelar-operators", &MigHints::default()).is_ok(),
@@ -440,7 +472,7 @@ fn build(case: &Case) -> (Sys<'static>, RoleModel) {
             }
         } else {
             prepare(&s, case.ep);
-            let _ = call(&s, case.ep, false);
+            let _ = call(&s, case.ep, 0);
         }
     }
     let mut s = s;
@@ -563,6 +595,12 @@ impl Property for C06 {
             cx.label(["", "successor_is_the_called_contract_itself", "successor_is_another_contract", "successor_is_the_current_holder"][case.successor as usize % 4]);
             cx.nontrivial();
         }
+        if let Principal::HolderOtherArg(k) = case.principal {
+            if !ep.has_component(k) {
+                return Ok(());
+            }
+            cx.label("holder_signed_a_call_differing_in_one_argument");
+        }
         let other_call = case.principal == Principal::HolderOtherCall && ep.has_variant();
         // ---- twin world: record what the call needs
         let (ws, wm) = build(case);
@@ -574,7 +612,12 @@ impl Property for C06 {
         let holder_idx = wm.holder[&role];
         let holder_rec = ws.pool[holder_idx].clone();
         ensure_p!(query_role(&ws, role) == holder_rec, "role query for {:?} disagrees with the transfer history (expected pool[{}])", role, holder_idx);
-        let (ok, recs) = auth::record(&ws.env, || call(&ws, ep, other_call));
+        let one_arg: Option<u8> = match case.principal {
+            Principal::HolderOtherArg(k) => Some(k),
+            _ => None,
+        };
+        let other_call = other_call || one_arg.is_some();
+        let (ok, recs) = auth::record(&ws.env, || call(&ws, ep, if let Some(k) = one_arg { 2 + k } else { other_call as u8 }));
         ensure_p!(ok, "{:?} failed although every authorisation was mocked and its preconditions hold (history {:?})", ep, case.history);
         let who_signed = auth::authorisers(&recs);
         let holder_sc = soroban_sdk::xdr::ScAddress::try_from(&holder_rec).unwrap();
@@ -595,7 +638,7 @@ impl Property for C06 {
         }
         let holder = s.pool[m.holder[&role]].clone();
         let principal: Option<Address> = match case.principal {
-            Principal::Holder | Principal::HolderOtherCall => Some(holder.clone()),
+            Principal::Holder | Principal::HolderOtherCall | Principal::HolderOtherArg(_) => Some(holder.clone()),
             Principal::Former => Some(match m.former[&role].last() {
                 Some(i) => s.pool[*i].clone(),
                 None => s.pool[STRANGER].clone(),
@@ -630,12 +673,12 @@ impl Property for C06 {
             cx.label("same_change_already_applied");
             cx.nontrivial();
         }
-        if principal.as_ref() == Some(&holder) && !matches!(case.principal, Principal::Holder | Principal::HolderOtherCall) {
+        if principal.as_ref() == Some(&holder) && !matches!(case.principal, Principal::Holder | Principal::HolderOtherCall | Principal::HolderOtherArg(_)) {
             cx.label("principal_class_coincides_with_holder");
         }
         let snap0 = snapshot(&s.env);
         let ev0 = events_len(&s.env);
-        let ok = call(&s, ep, false);
+        let ok = call(&s, ep, 0);
         if expect_ok {
             cx.count("must_succeed");
             ensure_p!(ok, "{:?} refused although the current {:?} holder authorised exactly this call (history {:?})", ep, role, case.history);
